@@ -634,6 +634,48 @@ for _q in RUNS:
 
 
 # ----------------------------------------------------------------------------------------------------------------------
+# MultiSetup_PoSER.result (property): ValueError before merge_results, afterwards exactly the stored dictionary; reading changes nothing
+# ----------------------------------------------------------------------------------------------------------------------
+
+class _PoserResult(Contract):
+    witness = _witness
+    qualname = "pyoma2.setup.multi.MultiSetup_PoSER.result"
+    props = ("C15", "C02")
+    generic_replay = False
+    callable_modular = False
+    compare_state = False
+    bounded_driver = {"driver": "c02_results", "inputs": {}}
+    merged = False
+    # the refusal before merge_results is the documented behaviour, not a clause of C02 / C15: a violation only with a failing input
+    replay_gated = ("ValueError before merge_results",)
+
+    def setup(self, c):
+        stored = Opaque("merged results") if self.merged else None
+        c.memo["ghost:poser_result"] = stored
+        return {"self": Obj("pyoma2.setup.multi.MultiSetup_PoSER", {"_MultiSetup_PoSER__result": stored, "_setups": Opaque("setups"),
+                                                                   "_names": Opaque("names"), "_ref_ind": Opaque("ref_ind")})}
+
+    def check(self, c, pre, post, outcome):
+        stored = c.memo["ghost:poser_result"]
+        if self.merged:
+            c.oblige("post", "returns exactly the stored merged results", outcome[0] == "return" and outcome[1] is stored, {"outcome": str(outcome)[:80]})
+        else:
+            c.oblige("post", "ValueError before merge_results", outcome == ("raise", "ValueError"), {"outcome": str(outcome)[:80]})
+        _same_fields(c, "self", pre["self"], post["self"])
+
+
+@register
+class poser_result_before(_PoserResult):
+    name = "before merge_results"
+
+
+@register
+class poser_result_after(_PoserResult):
+    name = "after merge_results"
+    merged = True
+
+
+# ----------------------------------------------------------------------------------------------------------------------
 # persistence (pickle round trip) and end-to-end determinism on real runs: no contract can speak about pickle or about
 # bit-identical floating-point reruns; a bounded search on the real classes stands in (labelled bounded)
 # ----------------------------------------------------------------------------------------------------------------------
